@@ -129,3 +129,28 @@ package auth
 //@   ensures[expiry-kept] result1 == nil && claims.ExpiresAt != nil && !v.disableDisconnectOnExpiry ==> result0.Expiry == claims.ExpiresAt.Time
 //@   ensures[expiry-dropped] result1 == nil && (claims.ExpiresAt == nil || v.disableDisconnectOnExpiry) ==> result0.Expiry.IsZero()
 //@   ensures[endpoints] result1 == nil ==> result0.Endpoints == claims.Piko.Endpoints
+
+// ---- configuration (C09): when is a port protected, and with which keys -----------
+
+//@ extern github.com/golang-jwt/jwt/v5.ParseRSAPublicKeyFromPEM
+//@   ensures[key-or-error] result1 == nil ==> result0 != nil
+//@ extern github.com/golang-jwt/jwt/v5.ParseECPublicKeyFromPEM
+//@   ensures[key-or-error] result1 == nil ==> result0 != nil
+//@ contract (*JWKSConfig).Load
+//@   trusted fetches the JWKS over HTTP and starts the refresher (keyfunc library)
+//@   ensures[keys-or-error] result1 == nil ==> result0 != nil
+
+// A port is protected as soon as any verification key is configured.
+//@ contract (*Config).Enabled
+//@   serves C09
+//@   ensures[any-key] result == (c.HMACSecretKey != "" || c.RSAPublicKey != "" || c.ECDSAPublicKey != "" || c.JWKS.Endpoint != "")
+
+// Loading keeps the claims to check and yields exactly the configured keys.
+//@ contract (*Config).Load
+//@   serves C09
+//@   ensures[claims] result1 == nil ==> result0 != nil && result0.Audience == c.Audience && result0.Issuer == c.Issuer && result0.DisableDisconnectOnExpiry == c.DisableDisconnectOnExpiry
+//@   ensures[hmac] result1 == nil ==> (len(result0.HMACSecretKey) > 0) == (c.HMACSecretKey != "")
+//@   ensures[rsa] result1 == nil ==> (result0.RSAPublicKey != nil) == (c.RSAPublicKey != "")
+//@   ensures[ecdsa] result1 == nil ==> (result0.ECDSAPublicKey != nil) == (c.ECDSAPublicKey != "")
+//@   ensures[jwks] result1 == nil ==> (result0.JWKS != nil) == (c.JWKS.Endpoint != "")
+//@   ensures[jwks-exclusive] result1 == nil && c.JWKS.Endpoint != "" ==> c.HMACSecretKey == "" && c.RSAPublicKey == "" && c.ECDSAPublicKey == ""
